@@ -213,7 +213,9 @@ fn run_case(seed: u64, idx: usize, bin: &str, rt: &std::sync::Arc<tokio::runtime
                 }
             }
             55..=64 => {
-                let ids = vec![id, id, *rng.pick(&universe), 999];
+                // duplicates adjacent or not, absent ids
+                let mut ids = vec![id, id, *rng.pick(&universe), 999, id];
+                rng.shuffle(&mut ids);
                 history.push(json!({"op":"batch_delete","ids":ids}));
                 match t.cl.batch_delete_ids(ids.clone(), "") {
                     Ok(x) => {
